@@ -17,7 +17,7 @@ Definition dec_cell (v : tval) : cell :=
      ce_resume := vbool (vnth 3 v);
      ce_mstate := dec_mstate (vn (vnth 4 v));
      ce_tstate := match vn (vnth 5 v) with 0 => TNone | 1 => TWaiting | 2 => TServed | _ => TRemote end%N;
-     ce_party := match vn (vnth 6 v) with 0 => PNormal | 1 => PListen0 | _ => PTarget0 end%N |}.
+     ce_party := match vn (vnth 6 v) with 0 => PNormal | 1 => PListen0 | 2 => PTarget0 | _ => PNoSecret end%N |}.
 
 Definition expected (o : outcome) : N * N :=
   match o with
@@ -50,12 +50,13 @@ Definition h_client (who : N) : client := match who with 2 => 11 | 3 => 12 | 4 =
 Definition h_state (k : N) : t_mstate := dec_mstate k.
 Definition h_mapping (m : N) (st : t_mstate) : option mapping :=
   if N.eqb m 1 then mk_mapping 11 12 101 st else if N.eqb m 2 then mk_mapping 13 14 102 st
+  else if N.eqb m 4 then mk_mapping 11 12 0 st   (* mapping 4: stores NO secret *)
   else mk_mapping 0 12 103 st.     (* mapping 3: SERVER-SIDE listener (stored listening client id 0), target client T *)
 Definition h_db0 : db := fun m => if N.eqb m 1 then h_mapping 1 MActive else if N.eqb m 2 then h_mapping 2 MActive
-                            else if N.eqb m 3 then h_mapping 3 MActive else None.
+                            else if N.eqb m 3 then h_mapping 3 MActive else if N.eqb m 4 then h_mapping 4 MActive else None.
 Definition h_req (mid sec tun : N) : request :=
   {| r_mid := mid; r_tid := 7 + tun;
-     r_secret := match sec with 0 => 0 | 1 => (if N.eqb mid 2 then 102 else if N.eqb mid 3 then 103 else 101) | 9 => (if N.eqb mid 2 then 101 else 102)
+     r_secret := match sec with 0 => 0 | 1 => (if N.eqb mid 2 then 102 else if N.eqb mid 3 then 103 else if N.eqb mid 4 then 0 else 101) | 9 => (if N.eqb mid 2 then 101 else 102)
                                 | k => 990 + k end; r_resume := false |}.
 Definition h_cfg (routing : bool) : config := {| cfg_self := 1; cfg_crossnode := routing; cfg_routing := routing |}.
 
